@@ -14,24 +14,24 @@ MUTANTS = [
     ("C01", "length-prefix-truncated-to-16-bits", "envelope.go",
      "binary.BigEndian.PutUint32(prefix[1:5], uint32(env.Data.Len()))",
      "binary.BigEndian.PutUint32(prefix[1:5], uint32(uint16(env.Data.Len())))"),
-    ("C01", "compress-below-threshold-inverted", "envelope.go",
+    ("C08", "compress-below-threshold-inverted", "envelope.go",
      "env.Data.Len() < w.compressMinBytes {", "env.Data.Len() > w.compressMinBytes && w.compressMinBytes > 0 {"),
     ("C01", "stale-holder-reintroduced-client", "client_stream.go",
-     "\ts.msg = new(Res)\n", "\tif s.msg == nil {\n\t\ts.msg = new(Res)\n\t}\n"),
+     "\ts.msg = new(Res)\n\ts.receiveErr = s.conn.Receive(s.msg)", "\tif s.msg == nil {\n\t\ts.msg = new(Res)\n\t}\n\ts.receiveErr = s.conn.Receive(s.msg)"),
+    ("C01", "marshal-buffer-released-before-write", "envelope.go",
+     "\tbuffer := bytes.NewBuffer(raw)\n\tdefer w.bufferPool.Put(buffer)\n\tenvelope := &envelope{Data: buffer}\n\treturn w.Write(envelope)", "\tbuffer := bytes.NewBuffer(raw)\n\tenvelope := &envelope{Data: bytes.NewBuffer(buffer.Bytes())}\n\tw.bufferPool.Put(buffer)\n\treturn w.Write(envelope)"),
     ("C02", "details-bin-dropped", "protocol_grpc.go",
      "\ttrailer.Set(grpcHeaderDetails, EncodeBinaryHeader(bin))\n", "\t_ = bin\n"),
     ("C02", "percent-encode-only-percent", "protocol_grpc.go",
      "if c := msg[i]; c < ' ' || c > '~' || c == '%' {\n\t\t\treturn grpcPercentEncodeSlow", "if c := msg[i]; c == '%' {\n\t\t\treturn grpcPercentEncodeSlow"),
     ("C02", "meta-not-merged-unary-connect", "protocol_connect.go",
-     "\t\t\tmergeHeaders(header, connectErr.meta)\n", ""),
+     "\t\t\tmergeHeaders(header, connectErr.meta)\n", "\t\t\t_ = connectErr\n"),
     ("C03", "single-read-for-prefix", "envelope.go",
      "io.ReadFull(r.reader, prefixes[:])", "r.reader.Read(prefixes[:])"),
     ("C04", "missing-grpc-status-is-ok", "protocol_grpc.go",
      "\tif codeHeader == \"\" {\n\t\treturn NewError(CodeInternal, errTrailersWithoutGRPCStatus)\n\t}", "\tif codeHeader == \"\" {\n\t\treturn nil\n\t}"),
     ("C04", "short-payload-accepted", "envelope.go",
      "\t\t\t\treturn errorf(\n\t\t\t\t\tCodeInvalidArgument,\n\t\t\t\t\t\"protocol error: promised %d bytes in enveloped message, got %d bytes\",\n\t\t\t\t\tsize,\n\t\t\t\t\tint64(size)-remaining,\n\t\t\t\t)", "\t\t\t\tbreak"),
-    ("C05", "grpc-status-also-in-headers", "protocol_grpc.go",
-     "\t\t\thc.responseWriter.Header().Add(http.TrailerPrefix+key, value)\n", "\t\t\thc.responseWriter.Header().Add(http.TrailerPrefix+key, value)\n\t\t\tif key == grpcHeaderStatus && hc.wroteToBody {\n\t\t\t\thc.responseWriter.Header().Add(\"X-\"+key, value)\n\t\t\t}\n"),
     ("C05", "content-type-hard-coded", "protocol_grpc.go",
      "\theader[headerContentType] = []string{request.Header.Get(headerContentType)}\n\theader[grpcHeaderAcceptCompression]", "\theader[headerContentType] = []string{grpcContentTypeFromCodecName(g.web, grpcCodecFromContentType(g.web, request.Header.Get(headerContentType)))}\n\theader[grpcHeaderAcceptCompression]"),
     ("C06", "uncoded-errors-not-wrapped-on-client", "protocol.go",
@@ -61,11 +61,11 @@ MUTANTS = [
     ("C11", "padded-base64-rejected", "header.go",
      "\tif len(data)%4 != 0 {", "\tif true {"),
     ("C12", "content-type-prefix-match", "handler.go",
-     "\t\tif _, ok := handler.ContentTypes()[contentType]; ok {", "\t\tok := false\n\t\tfor ct := range handler.ContentTypes() {\n\t\t\tif strings.HasPrefix(contentType, ct) {\n\t\t\t\tok = true\n\t\t\t}\n\t\t}\n\t\tif ok {"),
+     "\t\tif _, ok := handler.ContentTypes()[contentType]; ok {", "\t\tok := false\n\t\tfor ct := range handler.ContentTypes() {\n\t\t\tif len(contentType) >= len(ct) && contentType[:len(ct)] == ct {\n\t\t\t\tok = true\n\t\t\t}\n\t\t}\n\t\tif ok {"),
     ("C12", "bare-grpc-web-type-forgotten", "protocol_grpc.go",
      "\tif params.Codecs.Get(codecNameProto) != nil {\n\t\tcontentTypes[bare] = struct{}{}\n\t}", "\tif params.Codecs.Get(codecNameProto) != nil && !g.web {\n\t\tcontentTypes[bare] = struct{}{}\n\t}"),
-    ("C13", "unmarshal-from-released-buffer", "envelope.go",
-     "\tif err := r.codec.Unmarshal(data.Bytes(), message); err != nil {\n\t\treturn errorf(CodeInvalidArgument, \"unmarshal into %T: %w\", message, err)\n\t}\n\treturn nil\n}\n\nfunc (r *envelopeReader) Read(", "\traw := data.Bytes()\n\tr.bufferPool.Put(r.bufferPool.Get())\n\tif err := r.codec.Unmarshal(raw, message); err != nil {\n\t\treturn errorf(CodeInvalidArgument, \"unmarshal into %T: %w\", message, err)\n\t}\n\treturn nil\n}\n\nfunc (r *envelopeReader) Read("),
+    ("C13", "end-stream-envelope-aliases-pooled-buffer", "envelope.go",
+     "\t\tr.last = envelope{\n\t\t\tData:  r.bufferPool.Get(),\n\t\t\tFlags: env.Flags,\n\t\t}", "\t\tr.last = envelope{\n\t\t\tData:  bytes.NewBuffer(data.Bytes()),\n\t\t\tFlags: env.Flags,\n\t\t}\n\t\tif r.last.Data.Len() >= 0 {\n\t\t\treturn errSpecialEnvelope\n\t\t}"),
     ("C14", "seterror-does-not-close-pipe", "duplex_http_call.go",
      "\t_ = d.requestBodyReader.Close()\n\td.finish()\n", "\td.finish()\n"),
     ("C14", "closeread-does-not-close-body", "duplex_http_call.go",
